@@ -142,6 +142,13 @@ def generate(tier):
         for repr in ('C', 'packed', 'C, packed(2)', 'align(8)') if sh.kind == 'struct' else ('C', 'u8', 'align(4)'):
             for assign in assignments(sh, 'cim'):
                 cases.append(build(sh, assign, 'HP', repr=repr))
+    # zero-field tuple / struct-like variants next to unit variants and each other: every variant keeps a tag of its own
+    T0, N0, U_, T1_ = S.Fields('t', 0), S.Fields('n', 0), S.Fields('u'), S.Fields('t', 1)
+    for vs in ([T0, N0], [U_, T0, N0], [T0, T1_, N0], [N0, N0, T0, T0], [U_, N0, U_, T0]):
+        sh = S.Shape('enum', vs)
+        for assign in assignments(sh, 'cim'):
+            for cfg in ('H', 'HP'):
+                cases.append(build(sh, assign, cfg))
     for sh in WIDE:
         for assign in assignments_k(sh, 'cimx', 2 if tier == 'quick' else 3):
             cases.append(build(sh, assign, 'HP' if len(assign) % 2 else 'H', small_domain=True))
